@@ -23,12 +23,18 @@ LEVEL = "model_checking"
 FIXED_Q = ["fcc", "hcp", "square", "b2"]
 
 
-def dense_world(rng, dim):
+# reduce() looks for translations among the atoms of the smallest species: worlds whose smallest species comes last and
+# has several atoms per cell (so it has translations of its own that the other species do not share)
+SMALL_LAST = [(4, 2), (6, 2), (3, 2), (3, 3, 2), (4, 2, 2)]
+
+
+def dense_world(rng, dim, patterns=None):
     """A random multi-species decoration of a coarse grid (D = 2 in 3D, D = 4 in 2D): sublattices of single species
     then have many translations of their own that are NOT translations of the crystal, and the world itself may be
     a non-primitive description."""
     lat = rng.choice([k for k, m in worlds.LATTICES.items() if len(m) == dim])
-    pattern = rng.choice([(4, 2), (2, 4), (2, 2, 2), (4, 2, 2), (3, 2), (2, 2), (1, 2, 2), (4, 4), (3, 3, 2), (2, 1, 2)])
+    pattern = rng.choice(patterns or [(4, 2), (2, 4), (2, 2, 2), (4, 2, 2), (3, 2), (2, 2), (1, 2, 2), (4, 4),
+                                      (3, 3, 2), (2, 1, 2)])
     D = 2 if dim == 3 else 4
     grid = list(itertools.product(range(D), repeat=dim))
     if sum(pattern) > len(grid):
@@ -47,16 +53,16 @@ def base_worlds(ctx):
     rng = ctx.rng
     names = sorted(worlds.CATALOGUE)
     if ctx.tier == "quick":
-        chosen = list(FIXED_Q) + rng.sample([n for n in names if n not in FIXED_Q], 2)
+        chosen = list(FIXED_Q) + rng.sample([n for n in names if n not in FIXED_Q], 1)
         wl = [dict(worlds.CATALOGUE[n], name=n) for n in chosen]
         wl += [worlds.random_world(rng, dim=rng.choice((2, 3)), maxatoms=3)]
-        wl += [dense_world(rng, 3), dense_world(rng, 3), dense_world(rng, 2)]
-        return wl, 32
+        wl += [dense_world(rng, 3, SMALL_LAST), dense_world(rng, 3, SMALL_LAST), dense_world(rng, 3), dense_world(rng, 2)]
+        return wl, 26
     wl = [dict(worlds.CATALOGUE[n], name=n) for n in names]
     for i in range(10):
         wl.append(worlds.random_world(rng, dim=2 if i % 3 == 0 else 3, maxatoms=4))
     for i in range(16):
-        wl.append(dense_world(rng, 2 if i % 4 == 0 else 3))
+        wl.append(dense_world(rng, 2 if i % 4 == 0 else 3, SMALL_LAST if i % 2 else None))
     return wl, None
 
 
